@@ -1,6 +1,7 @@
 package main
 
 import (
+	"fmt"
 	"go/ast"
 	"go/token"
 	"go/types"
@@ -906,6 +907,20 @@ func (c *fnCtx) assign(lhs, rhs []ast.Expr, tok token.Token, at token.Pos) *Stmt
 			}
 			if sel := c.pkg.Info.Selections[x]; sel != nil {
 				if v, ok := sel.Obj().(*types.Var); ok {
+					private := false
+					if rr, pok := c.pathOf(x.X); pok && len(rr.Path) == 0 {
+						if root, isObj := rr.Root.(types.Object); isObj {
+							private = c.t.stillPrivate(c.fi, root, x.Pos()) || c.fresh[root]
+						}
+					}
+					if _, isPub := c.t.pubFields[v]; !isPub && !private {
+						if _, seen := c.t.assigned[v]; !seen {
+							c.t.assigned[v] = c.pos(x.Pos()) // path stability: a field inside a lock prefix must not change once shared
+						}
+					}
+					if false {
+						c.t.assigned[v] = c.pos(x.Pos()) // path stability: a field inside a lock prefix must not change once shared
+					}
 					if lab, pub := c.t.pubFields[v]; pub {
 						if rr, pok := c.pathOf(x.X); pok {
 							root, _ := rr.Root.(types.Object)
@@ -1013,7 +1028,7 @@ func (t *Trans) translateAll() {
 		if fi.Recv != "" {
 			kind = "method"
 		}
-		e := &Entry{Name: fi.Name, Kind: kind, Pos: t.fset.Position(fi.Decl.Pos()), Body: s}
+		e := &Entry{Name: fi.Name, Kind: kind, Pos: t.fset.Position(fi.Decl.Pos()), Body: s, fi: fi}
 		if fi.Exported && fi.Recv != "" {
 			for tn, gs := range t.specOf {
 				if tn.Pkg() == fi.Pkg.Types && tn.Name() == fi.Recv && gs.Mutex == "Mutex" {
@@ -1028,6 +1043,26 @@ func (t *Trans) translateAll() {
 		if a, ok := t.assigned[v]; ok {
 			t.errs = append(t.errs, a.String()+": field "+v.Name()+" is part of a lock/guarded-field prefix (first at "+p.String()+") and is re-assigned: lock identity would not be stable")
 		}
+	}
+	// functions that invoke a callback parameter: as a body of their own they are checked with the callback left out
+	// (their own accesses); what the callback does under their locks is checked at every call site, where it is
+	// resolved. That is only complete if every call site is in the translated packages.
+	for _, e := range t.entries {
+		if !e.Body.hasCallParam() {
+			continue
+		}
+		if e.Body.hasLockOp() {
+			switch {
+			case e.fi == nil:
+				t.errs = append(t.errs, fmt.Sprintf("%s: function literal %s invokes a callback parameter of the enclosing function and takes locks: not supported", e.Pos, e.Name))
+			case e.fi.valueUses > 0 || e.fi.goTarget:
+				t.errs = append(t.errs, fmt.Sprintf("%s: %s invokes a callback parameter while it may hold a lock and is itself used as a function value or started as a goroutine: the callback cannot be resolved", e.Pos, e.Name))
+			default:
+				t.cbUnderLock = append(t.cbUnderLock, e.fi)
+				t.notes = append(t.notes, fmt.Sprintf("%s invokes a callback parameter and takes locks: the callback is resolved and checked at its %d call site(s)", e.Name, e.fi.directCalls))
+			}
+		}
+		e.Body = e.Body.subst(func(r Ref) Ref { return r }, func(*Stmt) *Stmt { return skip() })
 	}
 	for _, e := range t.entries {
 		renderNames(e.Body)
